@@ -5,6 +5,7 @@
 //   <lineno>|<logical>|<op>|<canonical id or ->|<live per find_session just before: 0/1>|<observation>
 // Real session ids (addresses) are renamed to canonical numbers by first appearance.
 #include "../common/session_ops.h"
+#include <rime/config.h>
 #include <iostream>
 #include <map>
 #include <sstream>
@@ -88,6 +89,20 @@ int main(int argc, char** argv) {
       ls >> d;
       g_fake_now += d;
       std::cout << lineno << "|" << lg << "|" << op << "|-|0|unit\n";
+      continue;
+    }
+    if (op == "persist") {
+      // another client (or another session's switcher menu) saves an option: var/option/<name> of the shared user config
+      std::string name;
+      int v = 0;
+      ls >> name >> v;
+      auto* comp = rime::Config::Require("user_config");
+      bool ok = false;
+      if (comp) {
+        rime::the<rime::Config> user_config(comp->Create("user"));
+        ok = user_config && user_config->SetBool("var/option/" + name, v != 0);
+      }
+      std::cout << lineno << "|" << lg << "|" << op << "|-|0|" << (ok ? "unit" : "failed") << "\n";
       continue;
     }
     if (op == "tick") {
